@@ -31,7 +31,7 @@ RULE = ("seeded meshes (rectangular shapes 3x3..7x6, Delaunay vertex sets 5..20 
         "log-uniform coefficients, signal scales and positive adapt images; a case = (mesh, scheme, parameters); distinct by hash of "
         "(mesh vertices/shape, scheme name, parameters); non-trivial = >= 4 parameters and the matrix is not diagonal (or is a "
         "zeroth scheme, which is diagonal by definition and counted trivial)")
-BOUNDS = {"quick": "60 meshes x 7-9 schemes + 40 multi-object inversions + 12 large (up to 16x14) kernel meshes", "thorough": "12000 meshes x 7-9 schemes + 8000 inversions + 960 large kernel meshes"}
+BOUNDS = {"quick": "240 meshes x 7-9 schemes + 160 multi-object inversions + 24 large (up to 16x14) kernel meshes", "thorough": "12000 meshes x 7-9 schemes + 8000 inversions + 960 large kernel meshes"}
 EXHAUSTIVE = {"quick": False, "thorough": False}
 ASSUMPTIONS = ["kernel schemes: strict PD only when cond(covariance) <= 1e6; for 1e6 < cond <= 1e9 (large meshes, broad kernels) the claim is min eig >= -n*u*cond*lambda_max (PSD down to the rounding floor of the dense inverse); beyond 1e9 counted and skipped",
                "strict positive definiteness is decided numerically: min eigenvalue > 0 and Cholesky succeeds; cases with lambda_max*1e-16 "
@@ -43,12 +43,12 @@ MIN_MONITORS = {"*": {"symmetric": 50, "psd": 50, "pd": 30, "quadratic.constant"
 
 
 def plan(tier, seed):
-    n = 60 if tier == "quick" else 12000
-    nb = 40 if tier == "quick" else 8000
+    n = 240 if tier == "quick" else 12000
+    nb = 160 if tier == "quick" else 8000
     step = 4 if tier == "quick" else 20
     units = [{"kind": "mesh", "start": s, "stop": min(n, s + step), "w": step} for s in range(0, n, step)]
     units += [{"kind": "blocks", "start": s, "stop": min(nb, s + step), "w": step} for s in range(0, nb, step)]
-    nl = 12 if tier == "quick" else 960
+    nl = 24 if tier == "quick" else 960
     units += [{"kind": "large", "start": s, "stop": s + 1, "w": 3} for s in range(nl)]
     return units
 
